@@ -134,6 +134,8 @@ def handleCore (s : CoreState) (toks : List String) : CoreState × String :=
 def handle (s : DrvState) (toks : List String) : DrvState × String :=
   match toks with
   | "rim" :: "mode" :: rest => (s, Rim3.handleMode rest)
+  | "rim" :: "plant" :: rest => (s, Rim3.handlePlant rest false)
+  | "rim" :: "plant-legacy" :: rest => (s, Rim3.handlePlant rest true)
   | "rim" :: rest => (s, handleRim rest)
   | "ev" :: rest => let (e, a) := Events.handleEv s.ev rest; ({ s with ev := e }, a)
   | _ => let (c, a) := handleCore s.core toks; ({ s with core := c }, a)
